@@ -1,4 +1,5 @@
 """C12 — training batches say what the transcripts say; de-duplication averages."""
+import os
 from fractions import Fraction
 
 from ..check import Divergence, Violation
@@ -21,6 +22,10 @@ RULE = (
     "3-300 encoded positions by an index list with skewed multiplicities spread unevenly along the batch (zipf, segments with their "
     "own distributions, a key recurring at irregular intervals, early-rare/late-frequent keys), per-occurrence dyadic targets; and "
     "encode_games on one self-play step of 100-130 games (thorough: also 180-240 games, up to 70 plies). "
+    "Results are values: every dict returned by encode_games / dedup_batch / encode_batch during the run is held with a deep "
+    "snapshot taken at return time and re-verified after every later call (window of 30) and at the end (all held, plus "
+    "re-serialisation against the text compared with the model); call sizes are interleaved (larger then smaller, smaller then "
+    "larger, equal shapes). "
     "One evaluation = one encode_games call or one dedup_batch call. Non-trivial = a batch "
     "with at least one repeated key, or a game list with >= 2 games / a repeated position; distinct by serialised input."
 )
@@ -269,6 +274,12 @@ def gen_game_list(ctx):
     return logs, kinds
 
 
+def _note_encode_batch(ctx, positions, sentinel, enc, mask):
+    led = getattr(ctx, "_c12_ledger", None)
+    if led is not None:
+        led.record({"op": "encode_batch", "positions": [ser.pos_str(p) for p in positions], "sentinel": sentinel}, {"positions": enc, "mask": mask})
+
+
 def gen_dedup_batch(ctx):
     """a batch with an arbitrary multiset of repeated positions, varied padding width/content"""
     import torch
@@ -300,7 +311,9 @@ def gen_dedup_batch(ctx):
     # transpositions: the same position reached twice is two equal rows already (positions are values);
     # a distinct position object with equal content:
     plist = [base[i] for i in idx]
-    enc, mask = encoding.encode_batch(plist, include_sentinel=rng.random() < 0.8)
+    sentinel = rng.random() < 0.8
+    enc, mask = encoding.encode_batch(plist, include_sentinel=sentinel)
+    _note_encode_batch(ctx, plist, sentinel, enc, mask)
     extra = rng.choice([0, 0, 1, 3])
     if extra:
         enc = torch.cat([enc, torch.zeros((enc.shape[0], extra), dtype=enc.dtype)], dim=1)
@@ -393,6 +406,7 @@ def gen_big_dedup(ctx, n):
     nb = rng.choice([3, 10, 40, 120, 300])
     base = [rng.choice(pool) for _ in range(nb)]
     enc, mask = encoding.encode_batch(base)
+    _note_encode_batch(ctx, base, True, enc, mask)
     style, idx = skewed_indices(rng, nb, n)
     cnt = sum(_prod(shp) for _, shp in BIG_SHAPES)
     # dyadic targets k/32 in [-4, 4]: float32 sums over tens of thousands of rows stay exact
@@ -481,26 +495,181 @@ def gen_many_games(ctx, ngames):
     return logs
 
 
+# ------------------------------------------------------------------ results are values: the ledger
+
+
+def _snapshot(t):
+    """deep copy of a returned tensor (a weighted checksum for very large ones)"""
+    import torch
+
+    if t.numel() * t.element_size() <= 64 * 2**20:
+        return t.clone()
+    f = t.flatten().to(torch.float64)
+    w = torch.arange(f.numel(), dtype=torch.float64) % 1021 + 1
+    return ("checksum", tuple(t.shape), float((f * w).sum()), float(f.sum()))
+
+
+def _same(t, snap):
+    import torch
+
+    if isinstance(snap, tuple):
+        return _snapshot(t) == snap
+    return t.shape == snap.shape and t.dtype == snap.dtype and torch.equal(t, snap)
+
+
+class Ledger:
+    """every dict returned by encode_games / dedup_batch / encode_batch during the run is kept
+    together with a deep snapshot taken at return time; after later calls (and at the end) every
+    kept tensor must still equal its snapshot"""
+
+    def __init__(self, window=30, keep_bytes=150 * 2**20):
+        self.calls = []  # [{"op":…, …description sufficient to repeat the call…}]
+        self.held = []  # [{"call": index, "res": {name: tensor}, "snap": {name: snapshot}, "line": text at return}]
+        self.kept = []  # long-term
+        self.kept_bytes = 0
+        self.window = window
+        self.keep_bytes = keep_bytes
+        self.mutations = []  # [(victim call index, detected after call index, tensor name)]
+
+    def record(self, desc, res, line=None):
+        idx = len(self.calls)
+        self.calls.append(desc)
+        self.verify(self.held)
+        if res is not None:
+            item = {"call": idx, "res": res, "snap": {k: _snapshot(v) for k, v in res.items()}, "line": line}
+            self.held.append(item)
+            while len(self.held) > self.window:
+                old = self.held.pop(0)
+                b = sum(v.numel() * v.element_size() for v in old["res"].values())
+                if self.kept_bytes + 2 * b <= self.keep_bytes:
+                    self.kept.append(old)
+                    self.kept_bytes += 2 * b
+        if idx % 50 == 49:
+            self.verify(self.kept)
+        return idx
+
+    def verify(self, items):
+        for it in items:
+            if it.get("dead"):
+                continue
+            for k, v in it["res"].items():
+                if not _same(v, it["snap"][k]):
+                    it["dead"] = True
+                    self.mutations.append((it["call"], len(self.calls) - 1, k))
+                    break
+
+    def verify_all(self):
+        self.verify(self.kept)
+        self.verify(self.held)
+        # the serialisation compared with the model at return time is still what the tensors say
+        for it in self.kept + self.held:
+            if it.get("dead") or it["line"] is None or self.calls[it["call"]]["op"] != "encode_games":
+                continue
+            if sum(v.numel() for v in it["res"].values()) > 4_000_000:
+                continue
+            if "ok " + gamebatch_str(it["res"]) != it["line"]:
+                it["dead"] = True
+                self.mutations.append((it["call"], len(self.calls) - 1, "serialisation"))
+
+    def divergences(self):
+        out = []
+        for victim, after, name in self.mutations:
+            out.append(
+                Divergence(
+                    "impl.retained",
+                    {"kind": "call-sequence", "calls": self.calls[victim : after + 1], "tensor": name,
+                     "history": self.calls[:victim] if sum(len(str(c)) for c in self.calls[:victim]) < 3_000_000 else
+                     sorted(self.calls[:victim], key=lambda c: len(str(c)), reverse=True)[:2]},
+                    "tensor '%s' returned by call 0 (%s) changed while calls 1..%d ran" % (name, self.calls[victim]["op"], after - victim),
+                    "a returned batch is a value: it keeps saying what its transcripts say",
+                )
+            )
+        return out
+
+
+def exec_call(desc):
+    """repeat one recorded call; returns (result dict or None, line or None)"""
+    import tak  # noqa
+    from tak.model import encoding
+
+    op = desc["op"]
+    if op == "encode_games":
+        toks = desc["games"].split(" ")
+        n, k, logs = int(toks[0]), 1, []
+        for _ in range(n):
+            t, k = parse_transcript(toks, k)
+            logs.append(t)
+        from tak import self_play
+
+        d = self_play.encode_games(logs)
+        return d, "ok " + gamebatch_str(d)
+    if op == "encode_batch":
+        ps = [ser.parse_pos(t.split(" ")) for t in desc["positions"]]
+        enc, mask = encoding.encode_batch(ps, include_sentinel=desc["sentinel"])
+        return {"positions": enc, "mask": mask}, None
+    from tak.alphazero import trainer
+
+    if op == "dedup":
+        out = trainer.dedup_batch(rows_to_batch(desc["rows"], desc["dtype"], [(k, tuple(s_)) for k, s_ in desc["shapes"]]))
+        return out, None
+    if op == "dedup-compact":
+        enc, mask = tensors_of_base_rows(desc["base"])
+        out = trainer.dedup_batch(compact_batch(enc, mask, parse_occ(desc["occ"]), [(k, tuple(s_)) for k, s_ in desc["shapes"]]))
+        return out, None
+    raise ValueError(op)
+
+
+def run_sequence(calls):
+    """repeat a recorded call sequence with every result held; returns the list of
+    (victim index, tensor name) whose tensors no longer equal their snapshot, and for encode_games
+    victims the clauses the driver finds failing on the batch as it is NOW"""
+    led = Ledger(window=10**9, keep_bytes=0)
+    for d in calls:
+        try:
+            res, line = exec_call(d)
+        except Exception:
+            res, line = None, None
+        led.record(d, res, line)
+    led.verify_all()
+    out = []
+    for victim, _after, name in led.mutations:
+        now = []
+        d = calls[victim]
+        if d["op"] == "encode_games":
+            it = [h for h in led.held if h["call"] == victim][0]
+            try:
+                now = check_encodegames(d["games"], "ok " + gamebatch_str(it["res"]))
+            except Exception:
+                now = ["unserialisable"]
+        out.append((victim, name, now))
+    return out
+
+
 # ------------------------------------------------------------------ running the implementation
 
 
-def run_encode_games(logs):
+def run_encode_games(logs, ledger=None, text=None):
     from tak import self_play
 
     try:
         d = self_play.encode_games(logs)
     except Exception as e:
         return "crash " + type(e).__name__
-    return "ok " + gamebatch_str(d)
+    line = "ok " + gamebatch_str(d)
+    if ledger is not None:
+        ledger.record({"op": "encode_games", "games": text}, d, line)
+    return line
 
 
-def run_dedup(batch):
+def run_dedup(batch, ledger=None, desc=None):
     from tak.alphazero import trainer
 
     try:
         out = trainer.dedup_batch(batch)
     except Exception as e:
         return "crash " + type(e).__name__, None
+    if ledger is not None:
+        ledger.record(desc, out)
     rows = batch_rows(out)
     return "ok " + " ".join([str(len(rows))] + rows), rows
 
@@ -535,6 +704,13 @@ def tie(ctx):
     n_games = 700 if ctx.thorough else 100
     n_dedup = 5000 if ctx.thorough else 450
     divs = []
+    ledger = ctx._c12_ledger = Ledger()
+    import time as _time
+
+    import torch
+
+    torch.set_num_threads(1)  # thousands of small tensor ops: thread pools only add overhead
+    _t0 = _time.time()
 
     # --- encode_games
     lines, impl, meta = [], [], []
@@ -542,7 +718,7 @@ def tie(ctx):
         logs, kinds = gen_game_list(ctx)
         text = "%d %s" % (len(logs), " ".join(transcript_str(t) for t in logs))
         lines.append("batch encodegames max " + text)
-        impl.append(run_encode_games(logs))
+        impl.append(run_encode_games(logs, ledger, text))
         meta.append((text, kinds, logs))
     model = driver.run_lines(lines)
     for (text, kinds, logs), io, mo in zip(meta, impl, model):
@@ -573,14 +749,15 @@ def tie(ctx):
     if meta:
         ctx.sample({"encode_games": meta[0][0][:400], "impl": impl[0][:300]})
 
-    # --- logits alone, single transcripts (narrow head widths are not reachable in the code: `max`)
+    ctx.note("small encode_games lists: %.1fs" % (_time.time() - _t0))
+    _t0 = _time.time()
     # --- dedup_batch
     lines, impl, meta = [], [], []
     for _ in range(n_dedup):
         batch, dtype, shapes, style = gen_dedup_batch(ctx)
         rows = batch_rows(batch)
         lines.append("batch dedup %d %s" % (len(rows), " ".join(rows)))
-        io, out_rows = run_dedup(batch)
+        io, out_rows = run_dedup(batch, ledger, {"op": "dedup", "rows": rows, "dtype": dtype, "shapes": [[k, list(sh)] for k, sh in shapes]})
         impl.append(io)
         meta.append([rows, dtype, shapes, style, None, None])
     model = driver.run_lines(lines)
@@ -614,7 +791,59 @@ def tie(ctx):
     if meta:
         ctx.sample({"dedup_rows": meta[0][0][:6], "impl": impl[0][:300]})
 
+    ctx.note("small dedup batches: %.1fs" % (_time.time() - _t0))
     divs += tie_large(ctx)
+    _t0 = _time.time()
+    divs += tie_interleaved(ctx)
+    ledger.verify_all()
+    ctx.note("interleaved calls and final verification of %d held results: %.1fs" % (len(ledger.kept) + len(ledger.held), _time.time() - _t0))
+    divs += ledger.divergences()
+    ctx.count("held:calls", len(ledger.calls))
+    ctx.count("held:results-until-the-end", len(ledger.kept) + len(ledger.held))
+    ctx._c12_ledger = None
+    return divs
+
+
+def tie_interleaved(ctx):
+    """calls of different sizes in both orders and of equal size, every result held: a larger batch
+    then smaller ones, a smaller one then a larger one, two of the same shape with different content"""
+    rng, ledger = ctx.rng, ctx._c12_ledger
+    divs = []
+    lines, impl, texts = [], [], []
+
+    def call(logs):
+        text = "%d %s" % (len(logs), " ".join(transcript_str(t) for t in logs))
+        lines.append("batch encodegames max " + text)
+        texts.append(text)
+        impl.append(run_encode_games(logs, ledger, text))
+
+    def games(n, size, plies):
+        out = []
+        for _ in range(n):
+            ps = real_game_positions(rng, size)
+            while len(ps) < plies:
+                ps = ps + real_game_positions(rng, size)
+            out.append(make_transcript(rng, ps[:plies]))
+        return out
+
+    for _round in range(12 if ctx.thorough else 4):
+        size = rng.choice([3, 4, 5, 6])
+        small_n, plies = rng.choice([1, 2]), rng.choice([1, 2, 4])
+        big = games(rng.choice([4, 6, 9]), rng.choice([s_ for s_ in (4, 5, 6) if s_ >= size]), rng.choice([5, 8, 12]))
+        order = rng.choice(["big-small-small", "small-big-small", "equal-equal-equal"])
+        ctx.count("interleaved:" + order)
+        if order == "big-small-small":
+            call(big); call(games(small_n, size, plies)); call(games(small_n, size, plies))
+        elif order == "small-big-small":
+            call(games(small_n, size, plies)); call(big); call(games(small_n, size, plies))
+        else:
+            for _ in range(3):
+                call(games(small_n, size, plies))
+    model = driver.run_lines(lines)
+    for text, io, mo in zip(texts, impl, model):
+        ctx.evaluated()
+        if io != mo:
+            divs.append(Divergence("corr.batches", {"kind": "encodegames", "games": text}, io, mo))
     return divs
 
 
@@ -638,7 +867,7 @@ def tie_large(ctx):
         enc, mask, occ, style = gen_big_dedup(ctx, n)
         base_rows = base_rows_of(enc, mask)
         text = compact_text(base_rows, occ)
-        io, _ = run_dedup(compact_batch(enc, mask, occ))
+        io, _ = run_dedup(compact_batch(enc, mask, occ), ctx._c12_ledger, {"op": "dedup-compact", "base": base_rows, "occ": " ".join("%d|%s" % (i, fracs(t)) for i, t in occ), "shapes": [[k, list(sh)] for k, sh in BIG_SHAPES]})
         mo = driver.run_lines(["batch dedup-compact " + text])[0]
         keys = driver.run_lines(["batch key " + r for r in base_rows])
         counts = {}
@@ -660,7 +889,7 @@ def tie_large(ctx):
     for ngames in ([rng_pick(ctx, 100, 140), rng_pick(ctx, 180, 240)] if ctx.thorough else [rng_pick(ctx, 100, 130)]):
         logs = gen_many_games(ctx, ngames)
         text = "%d %s" % (len(logs), " ".join(transcript_str(t) for t in logs))
-        io = run_encode_games(logs)
+        io = run_encode_games(logs, ctx._c12_ledger, text)
         mo = driver.run_lines(["batch encodegames max " + text])[0]
         nrows = sum(len(t.positions) for t in logs)
         ctx.evaluated()
@@ -888,10 +1117,115 @@ def shrink_games(text, key):
     return tx if ok else text
 
 
+MUTATED = "result-mutated-by-later-call"
+
+
+FRESH = """
+import json, sys
+from harness.lib import build, env
+d, _ = build.build_ext()
+env.setup_impl_path(d)
+import takverif_stubs
+takverif_stubs.install()
+from harness.props import c12
+vs = c12.replay(None, json.load(open(sys.argv[1])))
+print("FRESH-RESULT", "fails" if vs else "holds")
+"""
+
+
+def replays_in_fresh_process(rep):
+    """does the call sequence fail when replayed by a NEW interpreter (no history)?"""
+    import json
+    import subprocess
+    import tempfile
+
+    from ..lib import env
+
+    with tempfile.NamedTemporaryFile("w", suffix=".json", delete=False) as f:
+        json.dump({"replay": rep}, f)
+        path = f.name
+    try:
+        r = subprocess.run([env.PYTHON, "-c", FRESH, path], cwd=env.VERIF, stdout=subprocess.PIPE, stderr=subprocess.STDOUT, text=True, timeout=600)
+        return "FRESH-RESULT fails" in r.stdout
+    except Exception:
+        return False
+    finally:
+        os.unlink(path)
+
+
+def _weight(c):
+    return sum(len(str(v)) for v in c.values())
+
+
+def shrink_sequence(ctx, history, calls):
+    """a short call sequence that still shows a mutated result when replayed by a fresh interpreter:
+    the victim and one later call; else preceded by one of the largest earlier calls of the run
+    (state left behind by history); else the whole run up to the detection"""
+    victim = calls[0]
+    later = calls[1:][-3:][::-1]
+    bigs = sorted(history, key=_weight, reverse=True)[:2]
+    cands = [[victim, x] for x in later]
+    cands += [[h, victim, x] for h in bigs for x in later[:2]]
+    if sum(_weight(c) for c in history) < 3_000_000:
+        cands.append(history + calls)
+    for cs in cands:
+        if replays_in_fresh_process({"kind": "call-sequence", "calls": cs}):
+            return halve_games(cs), True
+    return calls, False
+
+
+def halve_games(cs, budget=8):
+    """fewer games per encode_games call (first game only, else the first half), a few attempts"""
+    def games_of(text):
+        toks = text.split(" ")
+        n, k, out = int(toks[0]), 1, []
+        for _ in range(n):
+            k0 = k
+            k += 2 + 10 * int(toks[k + 1])
+            out.append(" ".join(toks[k0:k]))
+        return out
+
+    for i in range(len(cs) - 1, -1, -1):
+        if cs[i]["op"] != "encode_games":
+            continue
+        gs = games_of(cs[i]["games"])
+        for keep in (1, (len(gs) + 1) // 2):
+            if keep >= len(gs) or budget <= 0:
+                continue
+            budget -= 1
+            cand = cs[:i] + [dict(cs[i], games="%d %s" % (keep, " ".join(gs[:keep])))] + cs[i + 1 :]
+            if replays_in_fresh_process({"kind": "call-sequence", "calls": cand}):
+                cs = cand
+                break
+    return cs
+
+
 def search(ctx, divergences, broken):
     vs, seen = [], set()
     for d in divergences:
         inp = d.input
+        if inp.get("kind") == "call-sequence":
+            if MUTATED in seen:
+                d.explained = True
+                continue
+            try:
+                res = run_sequence(inp["calls"])
+            except Exception as e:
+                ctx.note("search: replaying the call sequence failed: %r" % (e,))
+                continue
+            if not res:
+                continue
+            d.explained = True
+            seen.add(MUTATED)
+            calls, fresh = shrink_sequence(ctx, inp.get("history", []), inp["calls"])
+            res = run_sequence(calls)
+            vi, name, now = next(iter(res), (0, inp.get("tensor"), []))
+            what = "the batch returned by call %d (%s) is changed by later calls: tensor '%s' no longer equals its value at return time%s; sequence of %d calls: %s%s" % (
+                vi, calls[vi]["op"], name, (" and now fails clause(s) %s of C12" % ",".join(now)) if now else "", len(calls),
+                [c["op"] + ":" + str(c.get("games", c.get("rows", c.get("positions", ""))))[:160] for c in calls[:3]],
+                "" if fresh else " (needs the earlier calls of the run as history; reproduced in-process only)")
+            vs.append(Violation(MUTATED, what, {"kind": "call-sequence", "calls": calls}))
+            continue
         try:
             if inp["kind"] == "dedup":
                 keys = check_dedup(inp["rows"], d.impl)
@@ -950,7 +1284,12 @@ def search(ctx, divergences, broken):
 def replay(ctx, data):
     r = data.get("replay", data)
     vs = []
-    if r["kind"] == "dedup-compact":
+    if r["kind"] == "call-sequence":
+        for victim, name, now in run_sequence(r["calls"]):
+            vs.append(Violation(MUTATED, "the batch returned by call %d (%s) is changed by later calls: tensor '%s' no longer equals its value at return time%s" % (
+                victim, r["calls"][victim]["op"], name, (" and now fails clause(s) %s" % ",".join(now)) if now else ""), r))
+            break
+    elif r["kind"] == "dedup-compact":
         occ = parse_occ(r["occ"])
         io, keys = compact_case(r["base"], occ, r["shapes"])
         for k in keys:
